@@ -588,6 +588,56 @@ def perturb(rng, desc, seq):
     return out
 
 
+def oracle_c01_latin(ctx, budget_s):
+    """LatinSquare as documented (constraints.rst): with N the largest level count, every aligned run of N trials
+    shows every level of every listed factor, and successive runs use distinct combinations until all are exhausted -
+    so with prod(levels) trials every combination occurs exactly once."""
+    ctx.rules.append("C01 oracle (LatinSquare): CrossBlock(fs, [] or fs, [LatinSquare(fs), MinimumTrials(prod levels)]) for "
+                     "2-3 factors with 2-3 levels, IterateSATGen and CMSGen: every aligned N-trial run contains every level "
+                     "of every factor, all prod(levels) combinations occur exactly once")
+    shapes = [(2, 2, 3), (2, 3), (3, 2, 2), (3, 3), (2, 3, 2)] + ([(2, 2), (3, 2), (2, 3, 3), (2, 2, 2)] if ctx.big() else [])
+    t_end = ctx.elapsed() + min(budget_s, 25 if not ctx.big() else 120)
+    for shape in shapes:
+        for crossed in (False, True):
+            for strat in ("IterateSATGen", "CMSGen"):
+                if ctx.elapsed() > t_end:
+                    return
+                fs = [sp.Factor("F%d" % i, ["l%d_%d" % (i, j) for j in range(n)]) for i, n in enumerate(shape)]
+                total = 1
+                for n in shape:
+                    total *= n
+                N = max(shape)
+                try:
+                    blk = quiet(sp.CrossBlock, fs, fs if crossed else [], [sp.LatinSquare(fs), sp.MinimumTrials(total)])
+                    exps = O.synth(blk, 4, strat, timeout=30)
+                except O.CallTimeout:
+                    continue
+                except Exception as e:
+                    ctx.fail("C01: %s raised %s for a LatinSquare over level counts %s" % (strat, type(e).__name__, shape),
+                             {"kind": "latin", "shape": list(shape), "crossed": crossed, "strategy": strat})
+                    return
+                ctx.count("C01.latin")
+                ctx.case(("C01latin", shape, crossed, strat), True)
+                for e in exps:
+                    T = len(e["F0"])
+                    combos = [tuple(e["F%d" % i][t] for i in range(len(shape))) for t in range(T)]
+                    bad = None
+                    if T != total:
+                        bad = "%d trials for MinimumTrials(%d)" % (T, total)
+                    elif len(set(combos)) != total:
+                        bad = "only %d distinct combinations in %d trials" % (len(set(combos)), total)
+                    else:
+                        for s0 in range(0, T, N):
+                            for i, n in enumerate(shape):
+                                if len(set(e["F%d" % i][s0:s0 + N])) != n:
+                                    bad = "trials %d..%d do not show every level of F%d" % (s0, s0 + N - 1, i)
+                    if bad:
+                        ctx.fail("C01: LatinSquare over level counts %s (%s, crossing %s): %s in %s" % (
+                            shape, strat, "given" if crossed else "empty", bad, json.dumps(e)[:300]),
+                            {"kind": "latin", "shape": list(shape), "crossed": crossed, "strategy": strat})
+                        return
+
+
 def _c17_self_consistency(ctx):
     """Designs outside the region where the reference semantics is defined (Nest whose outer block has a preamble):
     whatever IterateSATGen returns must at least be accepted by the mismatch checker (the encoder and the checker are
@@ -737,6 +787,9 @@ def oracle_c03(ctx, budget_s):
 
 def replay_design(ctx, r):
     """Re-run the recorded check on the recorded design."""
+    if r.get("kind") == "latin":
+        oracle_c01_latin(ctx, 60)
+        return
     case = O.Case(ctx, r["desc"])
     if not case.build():
         print("design is rejected now:", case.reject)
